@@ -25,6 +25,15 @@ func c06Plan(tier string, seed uint64) (jobs []rt.Job) {
 		a["n"] = n
 		jobs = append(jobs, rt.Job{ID: fmt.Sprintf("C06/%s/%s", c, mode), Kind: "c06", Cost: cost, Args: a})
 	}
+	// the same seed under several (height, hash) configurations inside ONE process, in different orders
+	nm := 3
+	if tier == "thorough" {
+		nm = 12
+	}
+	for b := 0; b < nm; b++ {
+		s := rng.Seed48()
+		jobs = append(jobs, rt.Job{ID: fmt.Sprintf("C06/multiconfig/%d", b), Kind: "multiconfig", Cost: 4, Args: map[string]interface{}{"seed": rt.Hex(s[:]), "order": b}})
+	}
 	nseeds := 3
 	if tier == "thorough" {
 		nseeds = 4
@@ -48,7 +57,49 @@ func c06Plan(tier string, seed uint64) (jobs []rt.Job) {
 	return
 }
 
+// c06Multi: one process, one seed, several (height, hash) configurations one after the other.
+func c06Multi(j *rt.Job, seed uint64, r *rt.Rec) {
+	rng := rt.NewRand(seed, j.ID)
+	cfgs := [][2]int{{4, 0}, {4, 1}, {4, 2}, {6, 0}, {6, 1}, {6, 2}, {4, 1}, {8, j.Int("order") % 3}}
+	for a := len(cfgs) - 1; a > 0; a-- {
+		b := rng.Intn(a + 1)
+		cfgs[a], cfgs[b] = cfgs[b], cfgs[a]
+	}
+	for step, hc := range cfgs {
+		c := XCfg{H: hc[0], HF: hc[1], Seed: j.Str("seed")}
+		lib := c.newLib()
+		ref := c.newRef()
+		pk := lib.GetPK()
+		r.Eval(1)
+		if !bytes.Equal(pk[:], ref.PK(c.desc())) {
+			r.Violate("C06/pk/history", fmt.Sprintf("public key of %s differs from the reference when it is the %d-th configuration derived from this seed in one process", c, step+1), jobCase(j), "", "")
+			return
+		}
+		for i := 0; i < 4; i++ {
+			if i == 3 {
+				lib.SetIndex(uint32(1<<uint(c.H)) - 2)
+			}
+			idx := lib.GetIndex()
+			msg := msgFor(c, idx, "multi")
+			sig, err := lib.Sign(msg)
+			r.Eval(1)
+			if err != nil || sigDiff(ref.Sign(idx, msg), sig) != "" {
+				r.Violate("C06/sig/history", fmt.Sprintf("signature at index %d of %s differs from the reference when it is the %d-th configuration derived from this seed in one process", idx, c, step+1), jobCase(j), "", "")
+				return
+			}
+			r.Count("signatures_equal", 1)
+			r.Distinct("multi", c.Seed, c.H, c.HF, idx, step)
+		}
+		r.Observe("multiconfig_orders", fmt.Sprintf("job%d:%d=h%d/%s", j.Int("order"), step, c.H, hashNames[c.HF]))
+	}
+	r.Sample(map[string]interface{}{"multiconfig_seed": j.Str("seed")[:16] + "..", "configurations_in_one_process": len(cfgs)})
+}
+
 func c06Run(j *rt.Job, seed uint64, r *rt.Rec) {
+	if j.Kind == "multiconfig" {
+		c06Multi(j, seed, r)
+		return
+	}
 	c := cfgFromJob(j)
 	mode := j.Str("mode")
 	rng := rt.NewRand(seed, j.ID)
